@@ -168,7 +168,10 @@ def run_harness(scenarios, wdir, nproc=None):
 # TLC
 # ------------------------------------------------------------------------------------
 def _tlc_cmd(module, cfg, metadir, workers=1, xmx="3g", extra=()):
-    return ["java", "-XX:+UseParallelGC", "-Xss1g", f"-Xmx{xmx}",
+    # TLC leaves an empty tlc-* directory in java.io.tmpdir on every run: keep it inside the metadir, which the
+    # caller removes, so that nothing accumulates under /tmp
+    os.makedirs(metadir, exist_ok=True)
+    return ["java", "-XX:+UseParallelGC", "-Xss1g", f"-Xmx{xmx}", f"-Djava.io.tmpdir={metadir}",
             "-Dtlc2.tool.queue.IStateQueue=StateDeque", "-Dfile.encoding=UTF-8",
             "-Dstdout.encoding=UTF-8", "-cp", TLA_CP, "tlc2.TLC",
             "-workers", str(workers), "-metadir", metadir, "-noGenerateSpecTE",
@@ -310,6 +313,27 @@ def run_model(module, cfg=None, workers=8, timeout=1800, wdir=None, env_extra=No
     log(f"[tlc] {module}: {st.get('distinct')} distinct states, {st.get('generated')} generated, "
         f"{len(printed)} printed lines, {time.time()-t0:.1f}s")
     return out, st, printed
+
+
+def run_proofs(module="AidlProofs", wdir=None, timeout=900):
+    """Re-checks the TLAPS proofs (unbounded instances / ids / contents) of the store and project modules."""
+    wdir = wdir or os.path.join(WORK, "mc")
+    cache = os.path.join(wdir, f"tlaps_{os.getpid()}")
+    os.makedirs(cache, exist_ok=True)
+    t0 = time.time()
+    try:
+        p = subprocess.run(["timeout", str(timeout), "tlapm", "--threads", str(min(8, NPROC)), "--cache-dir", cache, module + ".tla"],
+                           cwd=SPEC, stdout=subprocess.PIPE, stderr=subprocess.STDOUT, text=True)
+    except FileNotFoundError:
+        raise ToolError("tlapm not found on PATH")
+    finally:
+        shutil.rmtree(cache, ignore_errors=True)
+    m = re.search(r"All (\d+) obligations? proved", p.stdout)
+    if not m:
+        sys.stderr.write(p.stdout[-3000:])
+        raise ToolError(f"tlapm did not prove every obligation of {module} (rc={p.returncode})")
+    log(f"[tlapm] {module}: all {m.group(1)} obligations proved, {time.time()-t0:.1f}s")
+    return int(m.group(1))
 
 
 # ------------------------------------------------------------------------------------
